@@ -109,6 +109,11 @@ impl ControllerModel {
         }
     }
 
+    /// Number of data chunks one attempt of this call's transfer sends.
+    pub fn chunk_total(&self) -> usize {
+        self.chunks.len()
+    }
+
     pub fn done(&self) -> bool {
         self.loc == Loc::Done
     }
